@@ -23,19 +23,21 @@ theorem escChar_ge (c : Nat) (h : 128 ≤ c) : escChar c = [c] := by
   repeat' split
   all_goals first | rfl | omega
 
+theorem isScalar_ascii (c : Nat) (h : c < 128) : isScalar c = true := by
+  simp [isScalar]; omega
+
 theorem encodeRunes_eq : ∀ s : Str, encodeRunes s = if cleanS s then some (escS s) else none
   | [] => by simp [encodeRunes, cleanS, escS]
   | c :: cs => by
     have ih := encodeRunes_eq cs
     unfold encodeRunes
     rw [runeSelf_eq]
-    have hcl : cleanS (c :: cs) = (decide (c ≠ 0xFFFD) && cleanS cs) := by
-      simp [cleanS, Bool.not_or, eq_comm]
+    have hcl : cleanS (c :: cs) = (isScalar c && cleanS cs) := by
+      simp [cleanS]
     rw [hcl, ih]
     by_cases hc : c < 128
     · have ht := ascii_escape_table c hc
-      have hne : c ≠ 0xFFFD := by omega
-      simp only [hc, if_true, hne, ne_eq, not_false_eq_true, decide_true, Bool.true_and]
+      simp only [hc, if_true, isScalar_ascii c hc, Bool.true_and]
       by_cases hs : safe c = true
       · simp only [hs, if_true] at ht ⊢
         cases hcs : cleanS cs <;> simp [escS, ← ht]
@@ -43,11 +45,9 @@ theorem encodeRunes_eq : ∀ s : Str, encodeRunes s = if cleanS s then some (esc
         cases hcs : cleanS cs <;> simp [escS, ← ht]
     · simp only [hc, if_false]
       have hge := escChar_ge c (by omega)
-      by_cases hf : c = 0xFFFD
-      · subst hf; simp [runeError]
-      · have : (c == runeError) = false := by simp [runeError, hf]
-        simp only [this, Bool.false_eq_true, if_false, ne_eq, hf, not_false_eq_true, decide_true, Bool.true_and]
-        cases hcs : cleanS cs <;> simp [escS, hge]
+      cases hsc : isScalar c with
+      | false => simp
+      | true => cases hcs : cleanS cs <;> simp [escS, hge]
 
 theorem encodeString_eq (s : Str) : encodeString s = if cleanS s then some (strText s) else none := by
   unfold encodeString
